@@ -145,7 +145,7 @@ func (s *State) runBlock(b *ssa.BasicBlock) {
 			s.coll.paths++
 			return
 		case *ssa.Panic:
-			s.oblige("safety", "panic", []string{"C19"}, "false", s.eng.pos(in.Pos()), "explicit panic reachable")
+			s.doPanic(s.eng.pos(in.Pos()))
 			s.coll.paths++
 			return
 		default:
@@ -671,7 +671,7 @@ func (s *State) evalFrameItem(it *SExpr, env *SpecEnv) frameItem {
 		switch it.Name {
 		case "cell":
 			// cell(T): every cell of pointee type T
-			t := env.resolveType(it.Args[0].String())
+			t := env.resolveType(it.Args[0].Name)
 			base := cellHeapBase(t)
 			fi.whole = true
 			fi.bases = []heapBaseInfo{{base, heapLeaves(base, t)}}
@@ -1569,6 +1569,25 @@ func (s *State) mapStore(mt *types.Map, ref, key string, v Val, where string) {
 		h := s.heapGet(hl)
 		s.heapSet(hl, store(h, ref, store(sel(h, ref), key, v.Terms[i])))
 	}
+}
+
+// doPanic: an explicit panic is reachable only in entry states allowed by the contract's maypanic clauses.
+func (s *State) doPanic(where string) {
+	goal := "false"
+	if s.spec != nil && len(s.spec.MayPanic) > 0 {
+		env := s.specEnv().at(s.entry)
+		env.vars = s.entryVars
+		env.fn = nil
+		var alts []string
+		for _, c := range s.spec.MayPanic {
+			c := c
+			if err := safeSpec(func() { alts = append(alts, env.evalBool(c.Expr)) }); err != nil {
+				s.coll.specErr(s.eng, s.fn, c, err)
+			}
+		}
+		goal = or(alts...)
+	}
+	s.oblige("safety", "panic", append([]string{"C19"}, s.defaultProps()...), goal, where, "explicit panic reachable outside the states allowed by maypanic")
 }
 
 // ---- return ----------------------------------------------------------------------
